@@ -91,6 +91,18 @@ package binary
 // writeChangeSwitchCase prints the per-version switch around the three printers it is given and calls nothing else
 // dynamically (checked on its SSA).
 //@ callback-parametric func writeChangeSwitchCase
+// C05 "the generated reader reads streams written under any listed previous version": the step is read or written in
+// the layout of the current version exactly once whatever the version switch looks like (the `default:` branch, or the
+// whole body when no version changed the step); every version whose change needs handling gets its own `case` that
+// ends with `break;`, handles an added step with the printer for added steps and any other change with the
+// conversion printer, once. C12: the cases follow the sorted version labels (the map is never printed in its own order).
+//@ func writeChangeSwitchCase
+//@   property C05,C12
+//@   ensures the_current_layout_is_handled_exactly_once: calls(writeDefault) == 1
+//@   invariant 1: calls(writeDefault) == 0
+//@   iteration 1: a_version_without_a_change_gets_no_case: old(changes[versionLabel]) == nil ==> emittedHere("case Version::%s: {\n") == 0 && calls(writeConversion) == old(calls(writeConversion)) && calls(writeAdded) == old(calls(writeAdded))
+//@   iteration 1: a_changed_step_is_converted_in_its_own_case: old(changes[versionLabel]) != nil && typeof(old(changes[versionLabel])) != *dsl.TypeChangeStepAdded && writeConversion != nil ==> emittedHere("case Version::%s: {\n") == 1 && emittedArg("case Version::%s: {\n", 0, 0, string) == versionLabel && calls(writeConversion) == old(calls(writeConversion)) + 1 && calls(writeAdded) == old(calls(writeAdded)) && emittedHere("break;\n") == 1
+//@   iteration 1: an_added_step_is_handled_in_its_own_case: typeof(old(changes[versionLabel])) == *dsl.TypeChangeStepAdded && writeAdded != nil ==> emittedHere("case Version::%s: {\n") == 1 && emittedArg("case Version::%s: {\n", 0, 0, string) == versionLabel && calls(writeAdded) == old(calls(writeAdded)) + 1 && calls(writeConversion) == old(calls(writeConversion)) && emittedHere("break;\n") == 1
 
 // C01 (docs/reference/binary.md, Protocols and Streams): a plain step is written and read with the function of its
 // type; a stream is a sequence of blocks (a count, then that many items) closed by an empty block: one item is
@@ -186,6 +198,11 @@ package binary
 //@ func writeTypeConversion
 //@   property C05,C08
 //@   ensures an_integer_that_may_not_fit_is_checked_at_run_time: typeof(typeChange) == *dsl.TypeChangeNumberToNumber && typeChange.(*dsl.TypeChangeNumberToNumber) != nil && !write && dsl.GetPrimitiveKind(old(oldInt(typeChange))) == dsl.PrimitiveKindInteger && dsl.GetPrimitiveKind(old(newInt(typeChange))) == dsl.PrimitiveKindInteger && !holdsAll(old(oldInt(typeChange)), old(newInt(typeChange))) ==> emittedHere("throw std::runtime_error(\"Numeric overflow detected while converting '%s' to '%s'\");\n") == 1
+// docs/cpp/evolution.md, number <-> string: "will result in a write error if its value cannot be converted" - that
+// includes a number that the old integer type cannot hold: std::stoi / std::stoul return int / unsigned long, so for
+// an old type narrower than that the parsed value is range-checked before it is narrowed (`"300"` is not int8 44).
+//@ spec func oldNum(tc dsl.TypeChange) dsl.PrimitiveDefinition = tc.(*dsl.TypeChangeNumberToString).TypePair.Old.(*dsl.SimpleType).ResolvedDefinition.(dsl.PrimitiveDefinition)
+//@   ensures a_parsed_number_that_may_not_fit_is_checked_at_run_time: typeof(typeChange) == *dsl.TypeChangeNumberToString && typeChange.(*dsl.TypeChangeNumberToString) != nil && write && (old(oldNum(typeChange)) == dsl.PrimitiveInt8 || old(oldNum(typeChange)) == dsl.PrimitiveInt16 || old(oldNum(typeChange)) == dsl.PrimitiveUint8 || old(oldNum(typeChange)) == dsl.PrimitiveUint16 || old(oldNum(typeChange)) == dsl.PrimitiveUint32) ==> emittedHere("throw std::out_of_range(\"number out of range\");\n") == 1 && emittedHere("%s = static_cast<%s>(parsed_);\n") == 1 && emittedHere("%s = %s;\n") == 0
 //@   ensures a_fixed_vector_is_not_resized: typeof(typeChange) == *dsl.TypeChangeVectorTypeChanged && typeChange.(*dsl.TypeChangeVectorTypeChanged) != nil && !write && old(fixedVectorTarget(typeChange)) ==> emittedHere("%s.resize(%s.size());\n") == 0
 
 // C05: when the element type of a vector (or of a stream batch) changed, the generated reader converts element by
